@@ -78,6 +78,9 @@ func buildCalls(seed uint64, env *psEnv) []callSpec {
 	progs = append(progs, "{ } loop", "1 2 add\n\n{ } loop", "/p { p 1 } def p", "{ 1 } loop", "{ 1 dict begin } loop",
 		"currentfile eexec\n"+hexSection("/x 1 def 1 (a) add "), "currentfile eexec\n"+hexSection("/x 1 def currentfile closefile\n")+"\n/y 2 def x y add",
 		"/x (plain text after other runs) def x length")
+	// procedures bound in a fresh instance pick up that instance's operators
+	progs = append(progs, "7 3 { sub } bind exec 7 3 { add } bind exec 2 3 { mul } bind exec 4 { dup } bind exec 1 2 { exch } bind exec -5 { abs } bind exec",
+		"{ pop eq ne and or not index roll length get } bind dup length exch 0 get", "/q { 1 2 add 3 sub } bind def q /q load 2 get", "true false { and } bind exec true false { or } bind exec 5 5 { eq } bind exec 5 5 { ne } bind exec")
 	progs = append(progs, "1 2 add", "StandardEncoding 65 get", "/CIDInit /ProcSet findresource length", "errordict length", "systemdict /add known",
 		"[ 1 2 3 ] { 2 mul } forall", "/x { 1 (a) add } def x", "FontDirectory length", "(abc) dup 0 get exch length")
 	for i, p := range progs {
@@ -305,6 +308,24 @@ func hostilePrograms(rng *rand.Rand) []string {
 		"1183615869 internaldict /secret (x) put",
 		"/CIDInit /ProcSet findresource dup /begincmap undefinedname put",
 	)
+	// operators of systemdict replaced by OTHER operators (and by procedures), and
+	// then met by bind, by name lookup and by load in the same instance
+	{
+		ops := []string{"add", "sub", "mul", "exch", "dup", "pop", "eq", "ne", "and", "or", "not", "abs", "index", "roll", "length", "get"}
+		sb.Reset()
+		sb.WriteString("/sd systemdict def /ld /load load def /pt /put load def\n")
+		for i, k := range ops {
+			other := ops[(i+1+rng.IntN(len(ops)-1))%len(ops)]
+			if rng.IntN(4) == 0 {
+				fmt.Fprintf(&sb, "sd /%s { (hacked) } pt\n", k)
+			} else {
+				fmt.Fprintf(&sb, "sd /%s /%s ld pt\n", k, other)
+			}
+		}
+		sb.WriteString("{ add sub mul exch dup pop eq ne and or not abs index roll length get } bind pop\n/q { 7 3 sub 7 3 add 2 3 mul } bind def q\n/sub load /add load /mul load\n")
+		out = append(out, sb.String())
+		sb.Reset()
+	}
 	// write into the objects returned by operators and held by the built-in dictionaries
 	sp := scribblePrograms(true)
 	for i := 0; i < 24; i++ {
@@ -349,12 +370,57 @@ func psName(k string) string {
 	return k
 }
 
+// c18RunHistory runs a seeded selection of the hostile programs, each through
+// one of the program-reading entry points, and returns the programs it ran.
+func c18RunHistory(rng *rand.Rand) []string {
+	progs := hostilePrograms(rng)
+	rng.Shuffle(len(progs), func(i, j int) { progs[i], progs[j] = progs[j], progs[i] })
+	progs = progs[:1+rng.IntN(len(progs))]
+	for _, p := range progs {
+		switch rng.IntN(4) {
+		case 0:
+			postscript.ReadCMap(strings.NewReader(p))
+		case 1:
+			type1.Read(strings.NewReader("%!PS-AdobeFont-1.0\n" + p))
+		case 2:
+			intp := postscript.NewInterpreter()
+			intp.MaxOps = 20000
+			fr := &mon.FaultReader{Data: []byte(p), K: rng.IntN(len(p) + 1)}
+			intp.Execute(fr)
+		default:
+			intp := postscript.NewInterpreter()
+			intp.MaxOps = 20000
+			intp.ExecuteString(p)
+			// a second program on the same damaged instance
+			intp.ExecuteString("1 2 add")
+		}
+	}
+	return progs
+}
+
 func runC18(r *rt.Runner) {
 	env := newPSEnv()
 	calls := buildCalls(r.Seed*7919+1, env)
 
 	if os.Getenv("VERIF_C18_CHILD") == "1" {
 		c18Child(r, calls)
+		return
+	}
+	if os.Getenv("VERIF_C18_CHILD") == "2" {
+		// a fresh process in which the hostile history comes FIRST: whatever the
+		// library builds or caches on first use is built while, or after, the
+		// hostile programs ran
+		var run uint64
+		fmt.Sscan(os.Getenv("VERIF_C18_RUN"), &run)
+		rng := rand.New(rand.NewPCG(r.Seed*999983+run, 0xf1e5))
+		progs := c18RunHistory(rng)
+		fmt.Printf("HISTORY %d\n", len(progs))
+		for i, cs := range calls {
+			if strings.HasPrefix(cs.name, "Single/") {
+				continue
+			}
+			fmt.Printf("BATTERY %d %s\n", i, cs.run())
+		}
 		return
 	}
 
@@ -374,30 +440,10 @@ func runC18(r *rt.Runner) {
 	for k := 0; k < nHist; k++ {
 		r.Case("isolation", func(c *rt.C) {
 			rng := c.Rand()
-			progs := hostilePrograms(rng)
-			rng.Shuffle(len(progs), func(i, j int) { progs[i], progs[j] = progs[j], progs[i] })
-			progs = progs[:1+rng.IntN(len(progs))]
+			var progs []string
 			c.SetDetail(func() string { return "hostile history:\n" + strings.Join(progs, "\n----\n") })
-			for _, p := range progs {
-				switch rng.IntN(4) {
-				case 0:
-					postscript.ReadCMap(strings.NewReader(p))
-				case 1:
-					type1.Read(strings.NewReader("%!PS-AdobeFont-1.0\n" + p))
-				case 2:
-					intp := postscript.NewInterpreter()
-					intp.MaxOps = 20000
-					fr := &mon.FaultReader{Data: []byte(p), K: rng.IntN(len(p) + 1)}
-					intp.Execute(fr)
-				default:
-					intp := postscript.NewInterpreter()
-					intp.MaxOps = 20000
-					intp.ExecuteString(p)
-					// a second program on the same damaged instance
-					intp.ExecuteString("1 2 add")
-				}
-				c.Count("hostile programs run")
-			}
+			progs = c18RunHistory(rng)
+			c.Runner().Count("hostile programs run", int64(len(progs)))
 			after := battery()
 			nProbe := 0
 			for _, a := range after {
@@ -412,6 +458,60 @@ func runC18(r *rt.Runner) {
 				}
 			}
 			c.Nontrivial([]byte(strings.Join(progs, "\x00")), func() string { return fmt.Sprintf("%d hostile programs, then %d probe calls", len(progs), nProbe) })
+		})
+	}
+
+	// ---- (a2) the same, with the history run first in a fresh process (the
+	// pristine digests of this process are the reference: results are deterministic)
+	nFresh := r.N(24, 400)
+	for k := 0; k < nFresh; k++ {
+		r.Case("isolation-fresh-process", func(c *rt.C) {
+			exe, err := os.Executable()
+			if err != nil {
+				c.Inconclusive("cannot locate the worker binary")
+				return
+			}
+			logPath := filepath.Join(r.LogDir, fmt.Sprintf("c18-fresh-%d.log", c.Seq))
+			cmd := exec.Command(exe, "-prop", "C18", "-tier", r.Tier, "-seed", fmt.Sprint(r.Seed), "-only", "0", "-log", logPath, "-noprogress", "0")
+			cmd.Env = append(os.Environ(), "VERIF_C18_CHILD=2", fmt.Sprintf("VERIF_C18_RUN=%d", c.Seq))
+			outB, err := cmd.Output()
+			os.Remove(logPath)
+			os.Remove(logPath + ".hashes")
+			rt.Progress.Add(1)
+			if err != nil {
+				c.Violation("isolation-fresh|child-died", fmt.Sprintf("the child process running a hostile history died: %v\n%s", err, tail2(string(outB), 3000)), "")
+				return
+			}
+			nB, nHist := 0, -1
+			sc := bufio.NewScanner(bytes.NewReader(outB))
+			sc.Buffer(make([]byte, 1<<20), 1<<20)
+			for sc.Scan() {
+				line := sc.Text()
+				if strings.HasPrefix(line, "HISTORY ") {
+					fmt.Sscanf(line, "HISTORY %d", &nHist)
+				}
+				if !strings.HasPrefix(line, "BATTERY ") {
+					continue
+				}
+				parts := strings.SplitN(line, " ", 3)
+				var i int
+				if _, err := fmt.Sscan(parts[1], &i); err != nil || i < 0 || i >= len(pristine) || len(parts) < 3 {
+					continue
+				}
+				nB++
+				if parts[2] != pristine[i] {
+					c.Violation("isolation-fresh|"+strings.SplitN(calls[i].name, "#", 2)[0], fmt.Sprintf("in a fresh process that ran a hostile history first, the probe %s gives %s; in a pristine process it gives %s (history: seed %d, run %d)", calls[i].name, parts[2], pristine[i], r.Seed, c.Seq), "")
+				}
+			}
+			if nB == 0 || nHist < 0 {
+				c.Inconclusive("child reported no probe results")
+				return
+			}
+			c.Runner().Count("probe calls evaluated in fresh processes after a hostile history", int64(nB))
+			c.Count("fresh processes that ran a hostile history first")
+			c.Nontrivial([]byte(fmt.Sprintf("fresh|%d", c.Seq)), func() string {
+				return fmt.Sprintf("fresh process: %d hostile programs, then %d probe calls", nHist, nB)
+			})
 		})
 	}
 
